@@ -16,6 +16,8 @@ Decided (structural):
         remaining log entry is re-inserted, nothing is removed slot-wise, and the result is installed.
  R6 K2  the merge iterator of prefix queries returns only live overlay slots or the base iterator's own
         next(): a deletion tombstone is skipped, never turned into the end of the iteration.
+ R7 K5  SessionPerspective::insert and ::delete both log the write and store a slot for the key in the
+        overlay (a tombstone for delete) on every path; neither removes overlay slots.
 Not decided: overlay/merge iterator equals the model map (value-level)."""
 from rules.core import pat, k4
 from rules.core.facts import Operand
@@ -237,3 +239,42 @@ def merge_iterator_rule(F, rep):
         ok = ok and any("Some" in x[1] and x[1]["Some"] != x[2] and f.dominates(x[1]["Some"], s.bb) and "call:next" in f.origins(Operand(["c", x[3].rv[1]]), through_calls=()) for x in opts)
     rep.check(ok, "QueryIterator::next|tombstones-skipped", "K2 guarded-by",
               "an overlay slot is yielded only on the Some edge of its value (a deleted fact is not yielded)", site=f.site())
+    overlay_writer_rule(F, rep)
+
+
+def overlay_writer_rule(F, rep):
+    """R7: the session's two fact writers agree: SessionPerspective::{insert, delete} both log the write and
+    then *store* a slot for the key in the overlay (Some(value) / None); on every path to Ok. A delete that
+    removes the overlay slot instead of storing a tombstone lets the committed fact underneath shine through
+    again, and disagrees with the log that revert replays."""
+    n = 0
+    for name, want in (("insert", "Some"), ("delete", "None")):
+        fs = [f for f in F.fns if f.name == name and f.trait and f.trait.endswith("storage::QueryMut") and f.self_adt and f.self_adt.endswith("session::SessionPerspective")]
+        if len(fs) != 1:
+            rep.anchor_missing("QueryMut::%s for SessionPerspective" % name)
+            continue
+        f = fs[0]
+        n += 1
+        push = [c for c in f.calls if c.name == "push" and "field:fact_log" in f.origins(c.args[0], through_calls=())]
+        DER = ("Arc::make_mut", "BTreeMap::entry", "Entry::or_default", "DerefMut::deref_mut", "Entry::or_insert_with", "BTreeMap::get_mut", "Option::unwrap_or_default")
+        ov = lambda o: o is not None and o.place is not None and "field:current_facts" in f.origins(o, through_calls=DER)
+        stores = [c for c in f.calls if c.name == "insert" and c.self_ty and "BTreeMap" in c.self_ty and ov(c.args[0])]
+        removers = [c for c in f.calls if c.name in ("remove", "remove_entry", "retain", "pop_first", "pop_last", "clear") and c.self_ty and "BTreeMap" in c.self_ty and ov(c.args[0])]
+        rets = ok_returns_or_all(f)
+        ok = len(push) == 1 and bool(stores) and not removers
+        if ok:
+            cut = set()
+            r = f.reachable(0, cut_blocks={c.bb for c in stores})
+            ok = not (r & rets) and all(f.dominates(push[0].bb, c.bb) or f.dominates(c.bb, push[0].bb) for c in stores)
+            r2 = f.reachable(0, cut_blocks={push[0].bb})
+            ok = ok and not (r2 & rets)
+        rep.check(ok, "SessionPerspective::%s|logs-and-stores-slot" % name, "K5 sibling agreement",
+                  "%s pushes the write onto fact_log and stores a slot (%s) for the key in the overlay on every path; it removes nothing" % (name, want),
+                  "SessionPerspective::%s does not both log the write and store a slot for the key in the overlay on every path (overlay removals: %s): "
+                  "a deleted fact can reappear from the committed base, and the overlay disagrees with the log that revert replays" % (name, sorted({c.name for c in removers}) or "none"), f.site())
+    rep.floor("session fact writers checked", n, 2)
+
+
+def ok_returns_or_all(f):
+    rs = {s.bb for s in pat.ok_returns(f)}
+    return rs or set(f.returns())
